@@ -56,24 +56,14 @@ theorem idealA_congr_at {n : Nat} (op : FuseOp) {a1 a2 a1' a2' : Fin n → ℚ}
   unfold idealA
   cases op <;> dsimp only <;> split_ifs <;> simp only [meanA, acmA, wghA, e1, e2]
 
-/-- pointwise version of `baseRateQ0_eq_ideal`: the shortcut hypothesis is only needed at the entry read -/
+/-- pointwise version of `baseRateQ0_eq_ideal` (which needed the shortcut hypothesis at the entry read while the
+    shortcut test was `ulps_eq!`; since repair c8a7116 it needs none) -/
 theorem baseRateQ0_eq_ideal_at {n : Nat} (op : FuseOp) {a1 a2 : Fin n → ℚ} {u1 u2 : ℚ}
-    (h10 : 0 ≤ u1) (h11 : u1 ≤ 1) (h20 : 0 ≤ u2) (h21 : u2 ≤ 1) (i : Fin n)
-    (hsc : sc f a1 a2 i = true → a1 i = a2 i) :
+    (h10 : 0 ≤ u1) (h11 : u1 ≤ 1) (h20 : 0 ≤ u2) (h21 : u2 ≤ 1) (i : Fin n) :
     baseRateQ0 f op false a1 u1 a2 u2 i = idealA op a1 u1 a2 u2 i := by
   have e2 : a2 i = (fun j => if j = i then a2 i else a1 j) i := by simp
-  have hsc' : ∀ j, sc f a1 (fun j => if j = i then a2 i else a1 j) j = true →
-      a1 j = (fun j => if j = i then a2 i else a1 j) j := by
-    intro j hj
-    by_cases hji : j = i
-    · subst hji
-      have : sc f a1 (fun k => if k = j then a2 j else a1 k) j = sc f a1 a2 j := by
-        unfold sc; simp
-      rw [this] at hj
-      simpa using hsc hj
-    · simp [hji]
   rw [baseRateQ0_congr_at (a1' := a1) (a2' := fun j => if j = i then a2 i else a1 j) op false u1 u2 i rfl e2,
-    baseRateQ0_eq_ideal op h10 h11 h20 h21 hsc',
+    baseRateQ0_eq_ideal op h10 h11 h20 h21,
     ← idealA_congr_at (a1' := a1) (a2' := fun j => if j = i then a2 i else a1 j) op u1 u2 i rfl e2]
 
 /-! ### the multinomial fusion of converted operands, read back -/
@@ -93,18 +83,9 @@ theorem ofOpinion_fuse {op : FuseOp} (hop : op ≠ .ecm) (h₁ : BWF b₁ d₁ u
          XQ.fin (baseRateQ f op false ![a₁, 1 - a₁] u₁ ![a₂, 1 - a₂] u₂ 0)⟩ := by
   rw [BOp.toOpinion_fin, BOp.toOpinion_fin, fuse_lift hop false (swf2 h₁) (swf2 h₂), ofOpinion_lift]
 
-/-- the shortcut hypothesis at entry 0 of the converted base rates -/
-theorem sc_zero (hsc : XQ.ulpsEq (XQ.fin a₁ : XQ f) (XQ.fin a₂) = true → a₁ = a₂) :
-    sc f (![a₁, 1 - a₁] : Fin 2 → ℚ) ![a₂, 1 - a₂] 0 = true
-      → (![a₁, 1 - a₁] : Fin 2 → ℚ) 0 = (![a₂, 1 - a₂] : Fin 2 → ℚ) 0 := by
-  intro h
-  have : XQ.ulpsEq (XQ.fin a₁ : XQ f) (XQ.fin a₂) = true := by simpa [sc] using h
-  simpa using hsc this
-
-/-- plain operands, shortcut only at equal first base-rate entries: the ideal closed forms -/
+/-- plain operands: the ideal closed forms -/
 theorem ofOpinion_fuse_plain {op : FuseOp} (hop : op ≠ .ecm) (h₁ : BWF b₁ d₁ u₁ a₁) (h₂ : BWF b₂ d₂ u₂ a₂)
-    (p₁ : Plain f u₁) (p₂ : Plain f u₂)
-    (hsc : XQ.ulpsEq (XQ.fin a₁ : XQ f) (XQ.fin a₂) = true → a₁ = a₂) :
+    (p₁ : Plain f u₁) (p₂ : Plain f u₂) :
     BOp.ofOpinion (fuse op false
         (BOp.toOpinion (⟨XQ.fin b₁, XQ.fin d₁, XQ.fin u₁, XQ.fin a₁⟩ : BOp (XQ f)))
         (BOp.toOpinion (⟨XQ.fin b₂, XQ.fin d₂, XQ.fin u₂, XQ.fin a₂⟩ : BOp (XQ f))))
@@ -114,12 +95,11 @@ theorem ofOpinion_fuse_plain {op : FuseOp} (hop : op ≠ .ecm) (h₁ : BWF b₁ 
          XQ.fin (idealA op ![a₁, 1 - a₁] u₁ ![a₂, 1 - a₂] u₂ 0)⟩ := by
   rw [ofOpinion_fuse hop h₁ h₂, simplexQ_plain_ideal op (swf2 h₁) (swf2 h₂) p₁ p₂,
     baseRateQ_plain op false _ _ p₁ p₂,
-    baseRateQ0_eq_ideal_at op h₁.hu (BWF.u_le_one h₁) h₂.hu (BWF.u_le_one h₂) 0 (sc_zero hsc)]
+    baseRateQ0_eq_ideal_at op h₁.hu (BWF.u_le_one h₁) h₂.hu (BWF.u_le_one h₂) 0]
 
 /-- Avg only tests `is_dogmatic`: `u = 0 ∨ ε < u` suffices (the vacuous band is included) -/
 theorem ofOpinion_fuse_avg_plainD (h₁ : BWF b₁ d₁ u₁ a₁) (h₂ : BWF b₂ d₂ u₂ a₂)
-    (p₁ : PlainD f u₁) (p₂ : PlainD f u₂)
-    (hsc : XQ.ulpsEq (XQ.fin a₁ : XQ f) (XQ.fin a₂) = true → a₁ = a₂) :
+    (p₁ : PlainD f u₁) (p₂ : PlainD f u₂) :
     BOp.ofOpinion (fuse .avg false
         (BOp.toOpinion (⟨XQ.fin b₁, XQ.fin d₁, XQ.fin u₁, XQ.fin a₁⟩ : BOp (XQ f)))
         (BOp.toOpinion (⟨XQ.fin b₂, XQ.fin d₂, XQ.fin u₂, XQ.fin a₂⟩ : BOp (XQ f))))
@@ -132,7 +112,7 @@ theorem ofOpinion_fuse_avg_plainD (h₁ : BWF b₁ d₁ u₁ a₁) (h₂ : BWF b
     unfold baseRateQ baseRateQ0
     simp only [p₁.GDog_iff, p₂.GDog_iff]
   rw [ofOpinion_fuse (by decide) h₁ h₂, simplexQ_avg_plainD (swf2 h₁) (swf2 h₂) p₁ p₂, e,
-    baseRateQ0_eq_ideal_at .avg h₁.hu (BWF.u_le_one h₁) h₂.hu (BWF.u_le_one h₂) 0 (sc_zero hsc)]
+    baseRateQ0_eq_ideal_at .avg h₁.hu (BWF.u_le_one h₁) h₂.hu (BWF.u_le_one h₂) 0]
 
 /-! ### rational identities: ideal multinomial closed forms = binomial closed forms -/
 
